@@ -266,7 +266,7 @@ pub fn run(ctx: &Ctx) {
         "nonecell",
     );
 
-    let nrand = ctx.tier.pick(150_000u64, 3_000_000u64);
+    let nrand = ctx.tier.pick(600_000u64, 6_000_000u64);
     ctx.random_min(
         "deep-none-trees",
         nrand,
